@@ -555,6 +555,10 @@ def run(report, p):
                     top = full
                     while top[0] == "alt" and len(top[1]) == 1:
                         top = top[1][0]
+                    # a character-level rewrite of the name (judged by R6.8) does not make it depend on the spelling of the root
+                    from .common import strip_string_rewrites
+
+                    top, _rw = strip_string_rewrites(top)
                     def _norm_basename(t):
                         return is_call(t, "os.path.basename") and t[2] and any(is_call(t[2][0], k) for k in ("os.path.normpath", "os.path.abspath", "os.path.realpath"))
                     if _norm_basename(top):
@@ -566,6 +570,8 @@ def run(report, p):
                     else:
                         raise AnalysisError(f"{f.loc(v.value)}: how the folder name in the manifest file name is derived from the root path is not understood: {show(top)[:100]}")
 
+    include_rules(report, p, 'c15', ['R15.7'], 'the result must not depend on where the tree lives: a temporary in the system temp directory makes sealing fail on every other file system')
+    include_rules(report, p, 'c12', ['R12.13'], 'the same relative spelling at every ignore match')
     include_rules(report, p, 'c12', ['R12.1'], 'what is sealed depends on the tree and its own history only: the effective patterns come from the history AT the root (and the command line), never from a history found in an ancestor folder of the root')
     include_rules(report, p, 'c17', ['R17.1'], 'the expected set and the traversal are compared by string equality: both must spell a path the same way for every spelling of the root (., ./tree, a/../b, //)')
     include_rules(report, p, 'c07', ['R7.2'], 'directory hashes must not depend on enumeration order: the list hash sorts')
